@@ -82,12 +82,33 @@ fn real_call(op: &'static str, fd: c_int) -> (ssize_t, c_int, u64, c_int, c_int)
 fn connect_case(case: u64, out: &Out) {
     let coroutine = (case / 12) % 2 == 1;
     let caller_nonblocking = (case / 24) % 2 == 1;
-    let target = (case / 48) % 3; // 0 listening unix socket (connects at once), 1 nobody listens, 2 UDP (connects at once)
+    // 0 listening unix socket (connects at once), 1 nobody listens, 2 UDP (connects at once),
+    // 3 TCP listener on loopback (the non-blocking connect underneath reports EINPROGRESS first), 4 TCP port nobody listens on (refused)
+    let target = (case / 48) % 5;
     out.begin(case, jobj! {"op" => "connect", "context" => if coroutine {"coroutine (task)"} else {"plain thread"}, "caller_set_O_NONBLOCK" => caller_nonblocking,
-        "target" => ["listening unix stream socket", "unix path nobody listens on", "UDP peer"][target as usize]});
+        "target" => ["listening unix stream socket", "unix path nobody listens on", "UDP peer", "TCP listener on 127.0.0.1", "TCP port on 127.0.0.1 nobody listens on"][target as usize]});
     let path = format!("/tmp/verif-c18c-{}-{}.sock\0", std::process::id(), case);
     let (fd, listener, addr, alen): (c_int, c_int, Vec<u8>, socklen_t) = unsafe {
-        if target == 2 {
+        if target >= 3 {
+            let l = libc::socket(libc::AF_INET, libc::SOCK_STREAM, 0);
+            let mut a: libc::sockaddr_in = std::mem::zeroed();
+            a.sin_family = libc::AF_INET as libc::sa_family_t;
+            a.sin_addr.s_addr = u32::from_ne_bytes([127, 0, 0, 1]);
+            a.sin_port = 0;
+            assert_eq!(0, libc::bind(l, std::ptr::from_ref(&a).cast(), size_of::<libc::sockaddr_in>() as socklen_t));
+            let mut len = size_of::<libc::sockaddr_in>() as socklen_t;
+            libc::getsockname(l, std::ptr::from_mut(&mut a).cast(), &raw mut len);
+            let l = if target == 3 {
+                assert_eq!(0, libc::listen(l, 8));
+                l
+            } else {
+                // the port stays reserved for a moment but nobody listens on it
+                libc::close(l);
+                -1
+            };
+            let bytes = std::slice::from_raw_parts(std::ptr::from_ref(&a).cast::<u8>(), size_of::<libc::sockaddr_in>()).to_vec();
+            (libc::socket(libc::AF_INET, libc::SOCK_STREAM, 0), l, bytes, size_of::<libc::sockaddr_in>() as socklen_t)
+        } else if target == 2 {
             let peer = libc::socket(libc::AF_INET, libc::SOCK_DGRAM, 0);
             let mut a: libc::sockaddr_in = std::mem::zeroed();
             a.sin_family = libc::AF_INET as libc::sa_family_t;
@@ -138,6 +159,8 @@ fn connect_case(case: u64, out: &Out) {
             let obs = jobj! {"returned" => r, "errno" => e, "flags_before" => fb, "flags_after" => fa};
             let ok_ret = match target {
                 1 => r == -1,
+                // refused: a blocking caller gets the refusal itself, a non-blocking one may also be told "in progress"
+                4 => r == -1 && (e == libc::ECONNREFUSED || (caller_nonblocking && e == libc::EINPROGRESS)),
                 _ => r == 0 || (caller_nonblocking && r == -1 && (e == libc::EINPROGRESS || e == libc::EAGAIN)),
             };
             if fb != fa {
